@@ -2,6 +2,7 @@ package verifh
 
 import (
 	"database/sql"
+	"database/sql/driver"
 
 	"gorm.io/gorm"
 	"gorm.io/gorm/clause"
@@ -393,4 +394,116 @@ func H_C02_Chain(shape int) {
 	verifrt.Assert(used == len(vars), "C02.bound-values")
 	// same rows: TRUE on exactly the rows where the logical combination is TRUE
 	verifrt.Assert(verifrt.Iff(got.t, want.t), "C02.rows")
+}
+
+// ---- a bare primary-key condition whose key is a driver.Valuer of slice or
+// array kind (a UUID-like type): it must behave like a scalar key - the same
+// statement shape as with an integer key, the key bound as ONE value.
+
+type uuidKey [2]byte
+
+func (k uuidKey) Value() (driver.Value, error) { return string(k[:]), nil }
+func (k *uuidKey) Scan(v interface{}) error {
+	switch x := v.(type) {
+	case string:
+		copy(k[:], x)
+	case []byte:
+		copy(k[:], x)
+	}
+	return nil
+}
+
+type KV struct {
+	ID uuidKey `gorm:"primaryKey"`
+	A  int
+}
+
+func N_C02_KeyValuer(tier int) int { return 7 }
+
+func H_C02_KeyValuer(shape int) {
+	db := openDry(stubDialector{})
+	key := uuidKey{verifrt.Byte("k0"), verifrt.Byte("k1")}
+	n := verifrt.Intn("n", 1, 1000)
+	a := verifrt.Int("a")
+	verifrt.Assume(verifrt.And(a != n, a != 1)) // the key is told apart from the other bound values by its value
+	verifrt.Assume(n != 1)
+	run := func(useKV bool) *gorm.Statement {
+		var k interface{} = n
+		if useKV {
+			k = key
+		}
+		if useKV {
+			var out []KV
+			var one KV
+			switch shape {
+			case 0:
+				return db.Where(k).Find(&out).Statement
+			case 1:
+				return db.Not(k).Find(&out).Statement
+			case 2:
+				return db.Where("a = ?", a).Or(k).Find(&out).Statement
+			case 3:
+				return db.Find(&out, k).Statement
+			case 4:
+				return db.Take(&one, k).Statement
+			case 5:
+				return db.Delete(&KV{}, k).Statement
+			default:
+				return db.Where("a = ?", a).Where(k).Model(&KV{}).Update("a", 1).Statement
+			}
+		}
+		var out []T3
+		var one T3
+		switch shape {
+		case 0:
+			return db.Where(k).Find(&out).Statement
+		case 1:
+			return db.Not(k).Find(&out).Statement
+		case 2:
+			return db.Where("a = ?", a).Or(k).Find(&out).Statement
+		case 3:
+			return db.Find(&out, k).Statement
+		case 4:
+			return db.Take(&one, k).Statement
+		case 5:
+			return db.Delete(&T3{}, k).Statement
+		default:
+			return db.Where("a = ?", a).Where(k).Model(&T3{}).Update("a", 1).Statement
+		}
+	}
+	want, got := run(false), run(true)
+	verifrt.Reach("built")
+	ws, gs := want.SQL.String(), got.SQL.String()
+	verifrt.Observe("int-key", ws)
+	verifrt.Observe("valuer-key", gs)
+	verifrt.Assert(want.Error == nil && got.Error == nil, "C02.error")
+	// same statement, table name apart
+	verifrt.Assert(replaceAll(ws, "`t3s`", "`kvs`") == gs, "C02.key-condition-shape")
+	verifrt.Assert(len(want.Vars) == len(got.Vars), "C02.bound-values")
+	for i := range want.Vars {
+		if i >= len(got.Vars) {
+			break
+		}
+		if verifrt.SameValue(want.Vars[i], n) {
+			// where the integer key is bound, the Valuer key is bound, whole
+			gk, ok := got.Vars[i].(uuidKey)
+			verifrt.Assert(ok && gk == key, "C02.key-not-bound-whole")
+		} else {
+			verifrt.Assert(verifrt.SameValue(want.Vars[i], got.Vars[i]), "C02.bound-values")
+		}
+	}
+}
+
+func replaceAll(s, old, new string) string {
+	out := ""
+	for i := 0; i < len(s); {
+		if i+len(old) <= len(s) && s[i:i+len(old)] == old {
+			out += new
+			i += len(old)
+		} else {
+			out += string(s[i])
+			i++
+		}
+	}
+	return out
 }
